@@ -33,12 +33,12 @@ def queries(tier):
         for e, kn in (('visit_r', 0), ('visit_k', 1), ('visit_k', 2), ('add', 0)):
             for off in range(sz):
                 for js in range(sz):
-                    if e == 'add' and (off or js): continue
+                    if e == 'add' and (off or js or tier == 'quick'): continue     # (add: the unsliced witness twin needs > 40 GB: thorough tier)
                     for have in (range(kn + 1) if e == 'visit_k' else [0]):
                         if tier == 'quick' and e == 'visit_k' and kn == 2 and have == 1 and off != js: continue
                         d = {'SZ': sz, 'KNN': kn or 2, 'OFFSET': off, 'JSUB': js}
                         if e == 'visit_k': d['HAVE'] = have
                         qs.append(Query('gnat_%s[children=%d%s,offset=%d,subtree=%d%s]' % (e, sz, ',k=%d' % kn if kn else '', off, js, ',have=%d' % have if e == 'visit_k' else ''),
-                                        'C10_gnat.cpp', 'harness_' + e, defines=d, cxxflags=RNG_ENV, new_cap=64, unwind=sz + 3, timeout=(2 * to if e == 'add' else to), mem_gb=20, checks='none',
+                                        'C10_gnat.cpp', 'harness_' + e, defines=d, cxxflags=RNG_ENV, new_cap=64, unwind=sz + 3, timeout=(2 * to if e == 'add' else to), mem_gb=(40 if e == 'add' else 20), checks='none',
                                         bound='one node with %d children (child order offset %d, witness element in subtree %d), every metric with integer distances in [0,7] on query, pivots and one subtree element, every conservative range/radius table with entries in [0,15]%s' % (sz, off, js, ', k=%d with %d earlier neighbours' % (kn, have) if kn else '')))
     return qs
